@@ -97,8 +97,9 @@ type Frame struct {
 }
 
 type Exec struct {
-	renames         map[string]string // contract name of a local -> its current name (pure renames, by declaration position)
-	nullableResults bool              // set while the results of a contract call are created
+	renames         map[string]string        // contract name of a local -> its current name (pure renames, by declaration position)
+	nullableResults bool                     // set while the results of a contract call are created
+	visited         map[*ssa.BasicBlock]bool // blocks of the function under verification some explored path entered
 	staticSeen      map[string]bool
 	fvCells         map[string]int // free variables of the function under verification: spec name -> cell
 	prog            *Program
@@ -365,6 +366,32 @@ func (ex *Exec) Run() (err error) {
 		}
 	}
 	ex.runBlock(s, fr, fn.Blocks[0], 0)
+	// reachability: a block with real work (a call or a store) that no explored path enters means
+	// the executor - or a contract it applied - has assumed that code away; its obligations would
+	// be missing without anyone noticing. Blocks that only panic are expected to be unreachable.
+	for _, b := range fn.Blocks {
+		if ex.visited[b] || len(b.Preds) == 0 && b != fn.Blocks[0] {
+			continue
+		}
+		work := false
+		var at token.Pos
+		for _, in := range b.Instrs {
+			switch x := in.(type) {
+			case *ssa.Call:
+				if _, isB := x.Call.Value.(*ssa.Builtin); !isB {
+					work, at = true, x.Pos()
+				}
+			case *ssa.Store:
+				work, at = true, x.Pos()
+			}
+		}
+		if _, isPanic := b.Instrs[len(b.Instrs)-1].(*ssa.Panic); isPanic || !work {
+			continue
+		}
+		ex.obs = append(ex.obs, staticOb(fmt.Sprintf("%s/%s/reach@%s", ex.layer, ex.fnName, ex.anchor(at)), ex.fnName,
+			"every block with a call or a store is entered by some explored path", false,
+			"no explored path enters the block at "+ex.prog.Pos(at)+": the code there is not covered by any obligation"))
+	}
 	return nil
 }
 
@@ -699,6 +726,12 @@ func (ex *Exec) freshSlice(s *State, hint string, elem types.Type, isStr bool) V
 func (ex *Exec) runBlock(s *State, fr *Frame, b *ssa.BasicBlock, from int) {
 	if s.dead {
 		return
+	}
+	if fr.top {
+		if ex.visited == nil {
+			ex.visited = map[*ssa.BasicBlock]bool{}
+		}
+		ex.visited[b] = true
 	}
 	ex.paths++
 	if ex.paths > ex.maxPaths {
